@@ -135,6 +135,35 @@ def case_far_mean(D, dist):
     return Case(label, fn)
 
 
+def case_near_duplicates(D, eps):
+    """a batch whose covariances agree to ~eps (relative) without being identical — e.g. filter covariances close to
+    their steady state: every component is inverted on its own"""
+    label = f"near-duplicates/D{D}/eps{eps:g}"
+    def fn(m):
+        rng = gen.rng_path(m.seed, label)
+        fails = []
+        R = 3
+        S0 = gen.pd_batch(rng, 1, D)[0]
+        E = rng.uniform(-1.0, 1.0, (R, D, D)); E = 0.5 * (E + np.transpose(E, (0, 2, 1)))
+        S = np.stack([S0 * (1.0 + eps * r * E[r]) for r in range(R)])      # entrywise relative perturbation
+        mu = np.tile(rng.standard_normal((1, D)), (R, 1)) + eps * rng.standard_normal((R, D))
+        params = dict(R=R, D=D, eps=eps)
+        for give, kw in ((0, {}), (1, dict(Lambda=np.linalg.inv(S)))):
+            reg = m.pdf(R, D, S, mu, **kw)
+            o = m.regs.get(reg)
+            if o is None:
+                fails.append(failure(PROPERTY, "GaussianPDF", f"raised: {m.impl[-1][1:]}", params=params)); continue
+            fail_if(fails, PROPERTY, f"near-duplicates:give{give}:ln_det_Sigma", "ln det Sigma of a component is not its own log-determinant", np.asarray(o.ln_det_Sigma), np.linalg.slogdet(S)[1], params=params, tol=1e-10)
+            fail_if(fails, PROPERTY, f"near-duplicates:give{give}:Lambda", "precision of a component is not the inverse of its own covariance", np.asarray(o.Lambda), np.linalg.inv(S), params=params, tol=1e-9)
+            check_density(m, fails, reg, f"near-duplicates:give{give}", params)
+        u = m.measure(R, D, np.linalg.inv(S), np.einsum("rij,rj->ri", np.linalg.inv(S), mu), np.zeros(R))
+        r_ = m.query("log_integral", u)
+        ref = np.array([log_gauss_integral(np.linalg.inv(S[r]), np.linalg.inv(S[r]) @ mu[r], 0.0) for r in range(R)])
+        fail_if(fails, PROPERTY, "near-duplicates:measure:log_integral", "log_integral of a component is not its own mass", np.asarray(m.regs[r_]), ref, params=params, tol=1e-10)
+        return fails
+    return Case(label, fn)
+
+
 def case_highdim(D, scale):
     """diagonal densities of high dimension with uniformly small / large variances: well conditioned (condition number 4),
     but det Sigma itself is far outside the float64 range, the log-determinant is not (C02 quantifies over all D)"""
@@ -198,6 +227,7 @@ def cases(seed, tier):
         out.append(case_transform(*s))
     for D, scale in [(96, 1e-4), (96, 1e4)] + ([] if tier == "quick" else [(160, 1e-3), (48, 1e-8), (128, 1e3)]):
         out.append(case_highdim(D, scale))
+    out.append(case_near_duplicates(3, 1e-6)); out.append(case_near_duplicates(2, 3e-6))
     for D, dist in [(1, 45.0), (2, 60.0)] + ([] if tier == "quick" else [(3, 100.0), (1, 10.0)]):
         out.append(case_far_mean(D, dist))
     return seeded(out, seed)
